@@ -238,6 +238,21 @@ def corpus_chunks(ctx: Ctx, limit: int) -> list[str]:
     return out[:limit]
 
 
+def attribute_grid() -> list[str]:
+    """Directed family: every small dense / array / integer / float literal against every element type it may or may not fit."""
+    lits = ["1", "-1", "0", "255", "1.5", "-0.0", "true", "false", "(1, 2)", "(1.0, -2.0)", "[1, 2]", "[1.0, 2.0]", "[(1, 2), (3, 4)]", "[-1, (3, 4)]", "[true, 2]",
+            "\"0xFF00\"", "\"0x00000000000000FF\"", "[]", "[[1], [2]]", "[[1, 2]]", "0x7FC00000", "0xFF", "1e", "[1, ]", "(1, 2", "(1, 2]", "[1 2]", "9999999999", "-9999999999"]
+    tys = ["i1", "i8", "i32", "ui8", "si16", "index", "f16", "f32", "f64", "complex<f32>", "complex<i32>", "i0", "bf16", "none", "!unknown.t"]
+    out = []
+    for lit in lits:
+        for ty in tys:
+            for shaped in ("tensor<2x{}>", "vector<2x{}>", "tensor<{}>", "tensor<2x1x{}>"):
+                out.append(f'"test.op"() {{a = dense<{lit}> : {shaped.format(ty)}}} : () -> ()')
+            out.append(f'"test.op"() {{a = array<{ty}: {lit.strip("[]")}>}} : () -> ()')
+            out.append(f'"test.op"() {{a = {lit} : {ty}}} : () -> ()')
+    return out
+
+
 def probes() -> list[tuple[str, str]]:
     """Long inputs whose parsing time must stay proportional to their length."""
     out = []
@@ -319,6 +334,8 @@ def run(ctx: Ctx):
         add(sanitize(mutate(rng, rng.choice(chunks))), "mutated corpus chunk")
     for _ in range(4000 if q else 80000):
         add("".join(rng.choice(TOKENS) + rng.choice(["", " ", " ", "\n"]) for _ in range(rng.randint(1, 14))), "token sequence")
+    for t in attribute_grid():
+        add(t, "attribute literal grid")
     n_small = len(texts)
     for label, t in probes():
         add(t, f"probe: {label} ({len(t)} characters)")
